@@ -1,10 +1,13 @@
 package x0006
 
 type G struct {
-	V, W int64
+	gain, Site *int32
+	Name string
 }
 
 type T struct {
-	K int32
-	H *G
+	seq, Samples int32
+	Gain, scratch *int64
+	Loc G
+	Opt *G
 }
